@@ -92,6 +92,19 @@ GL, GLInner = _family()
 GL.__qualname__ = 'GL'
 GLInner.__qualname__ = 'GLInner'
 
+def _same_name_pair():
+    """Two different task types that share module and qualified name (a class made by a factory for
+    each variant, a notebook cell run twice): each is a task type of its own."""
+    out = []
+    for fields in (('x',), ('y', 'dep')):
+        ns = {'__annotations__': {f: 'Any' for f in fields}, **{f: None for f in fields}, 'run': (lambda self: None),
+              '__module__': __name__, '__qualname__': 'GV'}
+        out.append(labtech.task(type('GV', (), ns)))
+    return out
+
+
+GV1, GV2 = _same_name_pair()
+
 from .gtypes2 import GF, GG  # noqa: E402
 
 FIELDS = {GA: ('x',), GB: ('one', 'many'), GC: ('a', 'b'), GD: ('p', 'label'), GE: ('p', 'label', 'z'),
